@@ -3,7 +3,7 @@ use alloc::string::String;
 use crate::{
     dcps::{
         dcps_domain_participant::{
-            participant_entity::DcpsDomainParticipant,
+            participant_entity::DcpsDomainParticipant, participant_methods::next_free_id,
             user_defined_data_writer::UserDefinedDataWriter,
         },
         listeners::{
@@ -60,11 +60,19 @@ impl DcpsDomainParticipant {
             TopicKind::NoKey => USER_DEFINED_WRITER_NO_KEY,
         };
 
+        // Entity ids are reused after deletion: take the next id no live writer of this publisher holds
+        let Some(writer_id) = next_free_id(self.writer_counter, u16::MAX, |id| {
+            publisher.data_writer_list.iter().any(|x| {
+                [x.instance_handle[13], x.instance_handle[14]] == id.to_le_bytes()
+            })
+        }) else {
+            return Err(DdsError::OutOfResources);
+        };
         let entity_id = EntityId::new(
             [
                 publisher.instance_handle[12],
-                self.writer_counter.to_le_bytes()[0],
-                self.writer_counter.to_le_bytes()[1],
+                writer_id.to_le_bytes()[0],
+                writer_id.to_le_bytes()[1],
             ],
             entity_kind,
         );
@@ -87,7 +95,7 @@ impl DcpsDomainParticipant {
             entity_id.entity_key()[2],
             entity_id.entity_kind(),
         ]);
-        self.writer_counter += 1;
+        self.writer_counter = writer_id.wrapping_add(1);
 
         let qos = match qos {
             QosKind::Default => publisher.default_datawriter_qos.clone(),
